@@ -30,6 +30,16 @@ func SentinelMiddleware(opts ...Option) gear.Middleware {
 		if blockErr != nil {
 			if options.blockFallback != nil {
 				err = options.blockFallback(ctx)
+				if err == nil && !ctx.Res.HeaderWrote() {
+					// gear goes on to the next middleware, and to the handler, unless the request has ended or
+					// an error was returned: a fallback that only prepared the response must not let the blocked
+					// request through. (End reports a request that has already ended, which is fine here.)
+					status := ctx.Res.Status()
+					if status == 0 {
+						status = http.StatusTooManyRequests
+					}
+					_ = ctx.End(status)
+				}
 			} else {
 				err = ctx.End(http.StatusTooManyRequests, []byte("Blocked by Sentinel"))
 			}
